@@ -445,15 +445,124 @@ N_SAMPLES = 6
 UNSUPPORTED_AT_BASELINE = set()   # plot_drip / plot_hose were repaired in /repo (fix F25) and are required like the rest
 
 
-def plot_triangle(n_slices, mixed, n_samples=N_SAMPLES, n=3):
+TITLE_KINDS = ["risk_basis", "country", "currency", "reinsurance_basis", "loss_definition", "per_occurrence_limit",
+               "details", "loss_details", "reins-shared-lossdef-differs", "lossdef-shared-reins-differs", "several",
+               "others-none"]
+
+
+def title_metas(kind, n_slices):
+    """slices that differ in exactly ONE attribute (or a named combination) while sharing non-None values of the others"""
+    from bermuda import Metadata
+
+    shared = dict(risk_basis="Policy", country="US", currency="USD", reinsurance_basis="Net", loss_definition="Loss",
+                  per_occurrence_limit=1000, details={"lob": "auto"}, loss_details={"cov": "x"})
+    var = {"risk_basis": ["Accident", "Policy", "Underwriting"], "country": ["US", "DE", "FR"], "currency": ["USD", "EUR", "GBP"],
+           "reinsurance_basis": ["Gross", "Net", "Ceded"], "loss_definition": ["Loss", "Loss+DCC", "Loss+LAE"],
+           "per_occurrence_limit": [1000, 250000.0, 5], "details": [{"lob": "auto"}, {"lob": "home"}, {"lob": "auto", "state": "NY"}],
+           "loss_details": [{"cov": "x"}, {"cov": "y"}, {"peril": "wind"}]}
+    out = []
+    for i in range(n_slices):
+        kw = dict(shared)
+        if kind in var:
+            kw[kind] = var[kind][i]
+        elif kind == "reins-shared-lossdef-differs":
+            kw = dict(reinsurance_basis="Net", loss_definition=var["loss_definition"][i], country="US")
+        elif kind == "lossdef-shared-reins-differs":
+            kw = dict(loss_definition="Loss", reinsurance_basis=var["reinsurance_basis"][i])
+        elif kind == "several":
+            kw.update(country=var["country"][i], loss_definition=var["loss_definition"][i % 2], details={"lob": "auto", "n": i},
+                      per_occurrence_limit=None if i == 1 else 1000)
+        elif kind == "others-none":
+            kw = dict(risk_basis=None, loss_definition=var["loss_definition"][i])
+        out.append(Metadata(**kw))
+    return out
+
+
+def expected_label(m, metas):
+    """the facet label computed independently: exactly the attributes / detail keys whose value is NOT shared by all
+    slices (and is not None), in the documented layout  'Key: v, ...; country reins lossdef (limit x, r Basis, in cur)'"""
+    import string
+
+    def differs(get):
+        vals = [get(x) for x in metas]
+        return any(v != vals[0] for v in vals[1:])
+
+    custom = {}
+    for attr in ("details", "loss_details"):
+        for k, v in getattr(m, attr).items():
+            if not all(k in getattr(x, attr) and getattr(x, attr)[k] == v for x in metas):
+                custom[k] = v
+    custom_label = ", ".join(f"{string.capwords(k)}: {v}" for k, v in custom.items())
+    bare = [getattr(m, a) for a in ("country", "reinsurance_basis", "loss_definition")
+            if getattr(m, a) is not None and differs(lambda x, a=a: getattr(x, a))]
+    dec = []
+    if m.per_occurrence_limit is not None and differs(lambda x: x.per_occurrence_limit):
+        dec.append(f"limit {m.per_occurrence_limit}")
+    if m.risk_basis is not None and differs(lambda x: x.risk_basis):
+        dec.append(f"{m.risk_basis} Basis")
+    if m.currency is not None and differs(lambda x: x.currency):
+        dec.append(f"in {m.currency}")
+    parts = [p_ for p_ in ("; ".join(x for x in (custom_label, " ".join(bare)) if x), "(" + ", ".join(dec) + ")" if dec else "") if p_]
+    return " ".join(parts)
+
+
+def chart_titles(spec):
+    """per chart of the concatenation: the set of slice-title texts (title objects anchored in the middle)"""
+    def find(x, out):
+        if isinstance(x, dict):
+            for k, v in x.items():
+                if k == "title" and isinstance(v, dict) and "text" in v and v.get("anchor") == "middle":
+                    out.add(v["text"])
+                else:
+                    find(v, out)
+        elif isinstance(x, list):
+            for y in x:
+                find(y, out)
+        return out
+
+    for key in ("concat", "hconcat", "vconcat"):
+        if key in spec:
+            return [find(e, set()) for e in spec[key]]
+    return [find(spec, set())]
+
+
+def expected_titles(t, name, kw):
+    import inspect
+
+    import bermuda.plot as bp
+
+    metas = [m for m, _ in slice_reps(t)]
+    ns = len(metas)
+    labels = kw["facet_titles"] if kw.get("facet_titles") else [expected_label(m, metas) for m in metas]
+    sig = inspect.signature(getattr(bp, name)).parameters
+    if "metric_spec" not in sig:
+        return [{lab} for lab in labels]
+    ms = kw.get("metric_spec", sig["metric_spec"].default)
+    ms = [ms] if isinstance(ms, str) else list(ms)
+    if kw.get("facet_titles"):
+        return [{lab} for lab in labels for _ in ms]
+    return [{(lab + ": ") * (ns > 1) + m_} for lab in labels for m_ in ms]
+
+
+def slice_reps(t):
+    """==-distinct metadata in triangle (sorted) order, independent of Triangle.slices"""
+    out = []
+    for c in t.cells:
+        if not any(m == c.metadata for m, _ in out):
+            out.append((c.metadata, None))
+    return out
+
+
+def plot_triangle(n_slices, mixed, n_samples=N_SAMPLES, n=3, title_kind=None):
     """mixed: observed upper-left cells (scalars) + predicted lower-right cells (samples), the usual shape of a
     prediction triangle; otherwise every cell sample valued (upper-left only)"""
     from bermuda import Cell, Metadata, Triangle
 
     rng = np.random.default_rng(7)
     cells = []
+    tm = title_metas(title_kind, n_slices) if title_kind else None
     for s_ in range(n_slices):
-        meta = Metadata(details={"id": s_ + 1})
+        meta = tm[s_] if tm else Metadata(details={"id": s_ + 1})
         for i in range(n):
             y = 2015 + i
             for j in range(n if mixed else n - i):
@@ -521,12 +630,19 @@ def plot_call(t, name, kw):
         return {"detail": "not a Vega-Lite specification", "schema": spec.get("$schema")}
     if n_charts(spec) != want:
         return {"detail": f"{n_charts(spec)} charts for {len(t.slices)} slice(s) x {want // len(t.slices)} metric(s)"}
+    got, exp = chart_titles(spec), expected_titles(t, name, kw)
+    if want == 1 and got == [set()]:
+        got = exp          # a single chart is not a concatenation: its title slot holds the figure's main title
+    if got != exp:
+        return {"detail": "facet titles do not say what distinguishes the slices (each differing attribute / detail, and "
+                          "only those)", "got": [sorted(x) for x in got], "want": [sorted(x) for x in exp],
+                "slice_metadata": [repr(m) for m, _ in slice_reps(t)]}
     return None
 
 
 def _plot_job(job):
-    ns, mixed, name, kw = job
-    return plot_call(plot_triangle(ns, mixed), name, kw)
+    ns, mixed, name, kw, tk = job
+    return plot_call(plot_triangle(ns, mixed, title_kind=tk), name, kw)
 
 
 def vega_monitor(ctx):
@@ -547,14 +663,24 @@ def vega_monitor(ctx):
                         continue
                     if not mixed and (name not in pure_ok or kw.get("hide_samples")):
                         continue      # all-sample triangles: hide_samples leaves nothing to plot
-                    plan.append((ns, mixed, t, name, kw))
+                    plan.append((ns, mixed, t, name, kw, None))
+    # facet titles: slices differing in each single attribute (sharing non-None values of the others) and combinations
+    names = list(plot_options(2))
+    for i, tk in enumerate(TITLE_KINDS):
+        ns = 3 if i % 2 else 2
+        t = plot_triangle(ns, True, title_kind=tk)
+        rot = names if not ctx.quick else [names[(2 * i + j) % len(names)] for j in range(2)]
+        if tk in ("reins-shared-lossdef-differs", "lossdef-shared-reins-differs") and ctx.quick:
+            rot = ["plot_data_completeness", "plot_heatmap", "plot_ballistic", "plot_right_edge", "plot_histogram"]
+        for name in rot:
+            plan.append((ns, True, t, name, {}, tk))
     res, unsupported = {}, {}
     from concurrent.futures import ProcessPoolExecutor
 
     with ProcessPoolExecutor(max_workers=8) as ex:        # independent, CPU-bound Altair calls
-        results = list(ex.map(_plot_job, [(ns, mixed, name, kw) for ns, mixed, _, name, kw in plan], chunksize=4))
-    for (ns, mixed, t, name, kw), r in zip(plan, results):
-        key = f"{name}({json.dumps(kw, sort_keys=True)})/{ns}-slice/{'mixed' if mixed else 'samples'}"
+        results = list(ex.map(_plot_job, [(ns, mixed, name, kw, tk) for ns, mixed, _, name, kw, tk in plan], chunksize=4))
+    for (ns, mixed, t, name, kw, tk), r in zip(plan, results):
+        key = f"{name}({json.dumps(kw, sort_keys=True)})/{ns}-slice/{'mixed' if mixed else 'samples'}" + (f"/titles:{tk}" if tk else "")
         ctx.count(evaluations=1)
         if name in UNSUPPORTED_AT_BASELINE:
             unsupported[key] = "ok" if r is None else r
@@ -565,9 +691,9 @@ def vega_monitor(ctx):
         if r is not None:
             ctx.violation("impl-violation",
                           f"{name}(**{kw}) on a {ns}-slice {'observed+predicted' if mixed else 'all-sample'} triangle "
-                          f"({N_SAMPLES} samples) does not give a valid Vega-Lite spec with one chart per slice: {r}",
+                          f"({N_SAMPLES} samples) does not give a valid Vega-Lite spec with one rightly titled chart per slice: {json.dumps(r, default=str)[:600]}",
                           {"plot_call": {"method": name, "kwargs": kw, "n_slices": ns, "mixed": mixed,
-                                         "n_samples": N_SAMPLES}, "triangle": tri_spec(t), "failure": r},
+                                         "n_samples": N_SAMPLES, "title_kind": tk}, "triangle": tri_spec(t), "failure": r},
                           found_input=True)
     ctx.extra["vega_lite_monitor"] = {"calls": len(res), "failed": {k: v for k, v in res.items() if v != "ok"},
                                       "unsupported_at_baseline": unsupported}
@@ -1040,7 +1166,7 @@ def replay(ctx, data):
         return 1 if cache_probe(_C()) else 0
     pc = data.get("plot_call")
     if pc:
-        t = plot_triangle(pc["n_slices"], pc["mixed"], pc.get("n_samples", N_SAMPLES))
+        t = plot_triangle(pc["n_slices"], pc["mixed"], pc.get("n_samples", N_SAMPLES), title_kind=pc.get("title_kind"))
         print(f"bermuda.plot.{pc['method']}(triangle, **{pc['kwargs']}) on a {len(t.slices)}-slice triangle with "
               f"{t.num_samples} samples ({len(t)} cells)")
         r = plot_call(t, pc["method"], pc["kwargs"])
